@@ -584,6 +584,13 @@ V_ = "d42/validation/_validator.py"
 SV = "d42/substitution/_validator.py"
 SU = "d42/substitution/_substitutor.py"
 MUTANTS = [
+    {"name": "optional flag leaks from one dict entry to the following ones", "rule": "DICT-DECL",
+     "edits": [("d42/declaration/types/_dict_schema.py", "            if isinstance(key, optional):\n                real_keys[key.key] = (val, True)\n            else:\n                real_keys[key] = (val, False)\n",
+                "            if isinstance(key, optional):\n                key, flag = key.key, True\n            real_keys[key] = (val, flag)\n"),
+               ("d42/declaration/types/_dict_schema.py", "        real_keys = {}\n", "        real_keys = {}\n        flag = False\n")]},
+    {"name": "neutral: dict entries normalised through a conditional expression", "expect": "SILENT",
+     "edits": [("d42/declaration/types/_dict_schema.py", "            if isinstance(key, optional):\n                real_keys[key.key] = (val, True)\n            else:\n                real_keys[key] = (val, False)\n",
+                "            is_opt = isinstance(key, optional)\n            real_keys[key.key if is_opt else key] = (val, is_opt)\n")]},
     {"name": "< -> <= in SubstitutorValidator's min-length check", "rule": "CONSTRAINT",
      "edits": [(SV, "            if len(value) < schema.props.min_len:", "            if len(value) <= schema.props.min_len:")]},
     {"name": "max_len check deleted in SubstitutorValidator", "rule": "CONSTRAINT",
